@@ -649,6 +649,79 @@ impl TdCase {
         vec![format!("defer-drop freed={freed}/{n}")]
     }
 
+    /// `teardown disabled-drop <n>`: a ring created disabled (`Config::disable()`) and never enabled:
+    /// `n` reads are started (their submissions are queued; `io_uring_enter` is refused with EBADFD, so
+    /// none ever reaches the kernel), abandoned, and the Ring is dropped. Observed: how many of the
+    /// `n` read buffers were released. (Copy of `do_defer_drop` otherwise.)
+    /// ORIGINAL DOC: a single-issuer ring with deferred completions
+    /// (IORING_SETUP_DEFER_TASKRUN) of its own: `n` reads in flight are abandoned, then the Ring is
+    /// dropped. The kernel hands the completions of the cancelled reads over only inside
+    /// `io_uring_enter(GETEVENTS)`, at most `b` per call (Linux: 20, probed by `a10h kc`), so the
+    /// drop has to keep entering until a call brings nothing new. Observed: how many of the `n`
+    /// read buffers were released.
+    fn do_disabled_drop(&mut self, n: usize) -> Vec<String> {
+        let pre = simk::drain_events();
+        simk::purge_closed_except(self.rfd);
+        let held_main = simk::hold_fd(self.rfd);
+        let before: Vec<i32> = simk::with_sim(|s| s.rings.keys().copied().collect());
+        let built = Ring::config().with_submission_queue_size(8).disable().build();
+        if held_main {
+            simk::release_fd(self.rfd);
+        }
+        let mut ring_b = match built {
+            Ok(r) => r,
+            Err(e) => return vec![format!("disabled-drop setup-failed {e}")],
+        };
+        let Some(rfd_b) = simk::with_sim(|s| s.rings.keys().copied().find(|k| !before.contains(k))) else {
+            return vec!["disabled-drop no-new-ring".into()];
+        };
+        let sq_b = ring_b.sq();
+        let raw = simk::with_ring(rfd_b, |ring, _| ring.fresh_fd());
+        let fd: &'static AsyncFd = Box::leak(Box::new(unsafe { AsyncFd::from_raw_fd(raw, sq_b.clone()) }));
+        drop(sq_b);
+        let w = util::waker(990);
+        let mut cx = std::task::Context::from_waker(&w);
+        let mut futs = Vec::new();
+        let mut blocks = Vec::new();
+        for _ in 0..n {
+            let buf: Vec<u8> = Vec::with_capacity(48);
+            if let Some(blk) = track::watch(buf.as_ptr() as usize) {
+                blocks.push(blk);
+            }
+            let mut f: std::pin::Pin<Box<dyn std::future::Future<Output = std::io::Result<Vec<u8>>>>> = Box::pin(fd.read(buf));
+            let _ = f.as_mut().poll(&mut cx);
+            futs.push(f);
+        }
+        // submit them (nothing completes), then abandon all of them: cancel requests are queued
+        let _ = util::catch(std::panic::AssertUnwindSafe(|| ring_b.poll(Some(std::time::Duration::ZERO))));
+        drop(futs);
+        let _ = track::drain_frees();
+        let _ = util::catch(move || drop(ring_b));
+        let freed_now: Vec<u64> = track::drain_frees().iter().map(|b| b.id).collect();
+        let freed = blocks.iter().filter(|b| freed_now.contains(&b.id)).count();
+        let left = simk::with_ring(rfd_b, |ring, _| ring.deferred.len() + ring.cq_count() as usize + ring.overflow.len());
+        let _ = left;
+        if freed != n {
+            self.fail("C12/disabled-ring-drop", format!("ring created disabled and never enabled: {n} abandoned operations whose submissions were queued but never reached the kernel (io_uring_enter is refused with EBADFD) when the Ring was dropped: only {freed} of their buffers were released — no completion will ever arrive for a submission the kernel never saw, and nothing else reclaims the state"));
+        }
+        // the descriptor: the last handle
+        unsafe { drop(Box::from_raw(std::ptr::from_ref(fd).cast_mut())) };
+        let open = unsafe { simk::raw_syscall(libc::SYS_fcntl, raw as i64, libc::F_GETFD as i64, 0, 0, 0, 0) } >= 0;
+        if open {
+            unsafe { simk::raw_syscall(libc::SYS_close, raw as i64, 0, 0, 0, 0, 0) };
+        }
+        let _ = simk::drain_events();
+        simk::with_sim(|sim| {
+            let mut keep = pre;
+            keep.append(&mut sim.events);
+            sim.events = keep;
+        });
+        simk::purge_closed_except(self.rfd);
+        track::drain_frees();
+        self.feat("disabled-drop");
+        vec![format!("disabled-drop freed={freed}/{n}")]
+    }
+
     fn fail(&mut self, sig: &str, what: String) {
         if !self.oracle.iter().any(|o| o.1 == sig) {
             self.oracle.push(("C12".into(), sig.into(), what));
@@ -1398,6 +1471,13 @@ impl TdCase {
             ["teardown", "sqpoll-last-handle"] => {
                 out = self.do_sqpoll_last_handle();
             }
+            ["teardown", "disabled-drop", n] => {
+                let Ok(n) = n.parse::<usize>() else { return bad() };
+                if !(1..=6).contains(&n) {
+                    return bad();
+                }
+                out = self.do_disabled_drop(n);
+            }
             ["teardown", "defer-drop", n, b] => {
                 let (Ok(n), Ok(b)) = (n.parse::<usize>(), b.parse::<u32>()) else { return bad() };
                 if !(1..=6).contains(&n) || !(1..=4).contains(&b) {
@@ -1772,6 +1852,9 @@ impl Case for TdCase {
         }
         if rng.chance(1, 40) {
             return Some(format!("teardown defer-drop {} {}", rng.range(1, 6), rng.range(1, 4)));
+        }
+        if rng.chance(1, 80) {
+            return Some(format!("teardown disabled-drop {}", rng.range(1, 6)));
         }
         if rng.chance(1, 60) {
             return Some(format!("teardown single-last-handle {}", if rng.chance(1, 2) { "same" } else { "other" }));
